@@ -88,7 +88,7 @@ func genFactsSp(L *loader) (string, any, []string) {
 	pkg := coreMod + "/consensus"
 
 	// ---- consensus/merkle.go
-	for _, fn := range []struct{ name, lean string }{{"proofRoot", "proofRoot"}, {"storageProofRoot", "storageProofRoot"}} {
+	for _, fn := range []struct{ name, lean string }{{"proofRoot", "proofRoot"}, {"storageProofSubtreeHeight", "storageProofSubtreeHeight"}, {"storageProofRoot", "storageProofRoot"}} {
 		if fd := L.funcs[pkg+"."+fn.name]; fd == nil {
 			f.fail("consensus.%s not found", fn.name)
 		} else {
@@ -241,6 +241,53 @@ func genFactsSp(L *loader) (string, any, []string) {
 				f.fail("statement `leafIndex := …` not found in the storage-proof loop (%s)", L.pos(loop))
 			}
 			f.defList("v1ProofCheck", lines, "the per-proof check in validateFileContracts, from `leafIndex :=` on; if/else-if chain flattened")
+		}
+	}
+	// ---- the v2 per-proof check: the `case *types.V2StorageProof:` clause of the resolution type
+	// switch in validateV2FileContracts, if / else-if chains flattened
+	if fd2 := L.funcs[pkg+".validateV2FileContracts"]; fd2 == nil {
+		f.fail("consensus.validateV2FileContracts not found")
+	} else {
+		var clause *ast.CaseClause
+		ast.Inspect(fd2.Body, func(n ast.Node) bool {
+			ts, ok := n.(*ast.TypeSwitchStmt)
+			if !ok {
+				return true
+			}
+			for _, c := range ts.Body.List {
+				cc := c.(*ast.CaseClause)
+				if len(cc.List) == 1 && f.src(cc.List[0]) == "*types.V2StorageProof" {
+					clause = cc
+				}
+			}
+			return true
+		})
+		if clause == nil {
+			f.fail("case *types.V2StorageProof not found in validateV2FileContracts (%s)", L.pos(fd2))
+		} else {
+			var lines []string
+			for _, st := range clause.Body {
+				if is, ok := st.(*ast.IfStmt); ok {
+					for cur := is; cur != nil; {
+						first := ""
+						if len(cur.Body.List) > 0 {
+							first = f.src(cur.Body.List[0])
+							if strings.HasPrefix(first, "return fmt.Errorf(") {
+								first = "return error"
+							}
+						}
+						lines = append(lines, "if "+f.src(cur.Cond)+" => "+first)
+						next, _ := cur.Else.(*ast.IfStmt)
+						if cur.Else != nil && next == nil {
+							lines = append(lines, "else => "+f.src(cur.Else))
+						}
+						cur = next
+					}
+					continue
+				}
+				lines = append(lines, f.src(st))
+			}
+			f.defList("v2ProofCheck", lines, "the `case *types.V2StorageProof` clause of validateV2FileContracts ("+L.pos(clause)+"); if/else-if chains flattened")
 		}
 	}
 	f.sb.WriteString("end Gen.FactsSp\n")
